@@ -147,7 +147,12 @@ impl Kernel for World {
         self.calls.push(format!("kill:{}:{}", self.canon(pid), sig));
         self.kills.push((pid, sig));
         if self.reap_seen_at_call.is_some() || self.gone() {
-            self.kills_after_reap.push(format!("kill({}, {}) issued after the child was reaped", self.canon(pid), sig));
+            // The property forbids a signal once the library has *observed* the end of the child (a waitpid of
+            // its own returned the pid, or ECHILD told it that someone else reaped it).  A child reaped by
+            // someone else that the library has not asked about yet is a race it cannot know of: not a violation.
+            if self.reap_seen_at_call.is_some() {
+                self.kills_after_reap.push(format!("kill({}, {}) issued after the child was reaped", self.canon(pid), sig));
+            }
             self.resps.push("err:3".into());
             return Ans::Err(libc::ESRCH);
         }
